@@ -6,6 +6,7 @@ package c04
 import (
 	"fmt"
 	"math"
+	"runtime"
 	"unsafe"
 
 	"github.com/flowmatters/openwater-core/data"
@@ -20,6 +21,7 @@ type kase struct {
 	tbl      tables.Table
 	group    []int // indices into tbl.Params used for the parameter columns
 	hetero   bool  // group mixes state-vector lengths (GR4J / Lag)
+	procs    int   // GOMAXPROCS during the vectorised Run (0 = leave as is)
 	N, P, B  int
 	T        int
 	slack    int
@@ -112,7 +114,7 @@ func (k *kase) cellParams(col int) []float64 { return k.tbl.Params[k.group[col%l
 
 func (k *kase) describe() map[string]interface{} {
 	return map[string]interface{}{"model": k.tbl.Model, "param_vectors": k.group, "cells": k.N, "parameter_sets": k.P, "input_blocks": k.B, "timesteps": k.T,
-		"output_slack": k.slack, "c_backed": k.cBacked, "caller_filled_states": k.fillInit, "heterogeneous_state_lengths": k.hetero}
+		"output_slack": k.slack, "c_backed": k.cBacked, "caller_filled_states": k.fillInit, "heterogeneous_state_lengths": k.hetero, "gomaxprocs": k.procs}
 }
 
 func run(k *kase, r *vf.Rec) {
@@ -192,7 +194,13 @@ func run(k *kase, r *vf.Rec) {
 	outputs := newArr([]int{k.N + k.slack, nout + k.slack, k.T + k.slack}, k.cBacked)
 	pBefore, iBefore := params.snapshot(), inputs.snapshot()
 
-	m.Run(inputs.nd.(data.ND3Float64), states, outputs.nd.(data.ND3Float64))
+	if k.procs > 0 {
+		old := runtime.GOMAXPROCS(k.procs)
+		m.Run(inputs.nd.(data.ND3Float64), states, outputs.nd.(data.ND3Float64))
+		runtime.GOMAXPROCS(old)
+	} else {
+		m.Run(inputs.nd.(data.ND3Float64), states, outputs.nd.(data.ND3Float64))
+	}
 
 	d := k.describe()
 	sig := func(clause string) string {
@@ -355,6 +363,16 @@ func build(tier string) *enum {
 					}
 				}
 			}
+			// the processor count is an input of Run too (any batching of cells by processors must cover each cell once)
+			for _, np := range [][2]int{{4, 3}, {5, 2}, {5, 3}, {9, 8}, {9, 4}, {13, 2}, {3, 2}} {
+				for _, P := range []int{1, np[0]} {
+					for _, cb := range []bool{false, true} {
+						if !cb || tier == "thorough" {
+							e.cases = append(e.cases, kase{tbl: t, group: g, N: np[0], P: P, B: np[0], T: 3, slack: 1, cBacked: cb, fillInit: true, procs: np[1]})
+						}
+					}
+				}
+			}
 		}
 	}
 	return e
@@ -378,7 +396,7 @@ func (e *enum) CrashSig(i int64, tail string) (string, string) {
 func Spec() *vf.Check {
 	return &vf.Check{
 		ID: "C04", Level: "exploration", BlockSize: 16,
-		Rule: "all 41 catalogued models x parameter-vector groups x cells N in 1..4 x parameter sets P and input blocks B in {1, N, the value coprime with N below N} (plus N in {5,8,9,13} with P in {1,N}, B in {1,4,N}) x T in {1,3,(6)} x outputs exact or one larger in every dimension x Go- or C-backed arrays (with canaries) x states from InitialiseStates(N) or caller-filled (warmed-up, distinct rows); per-cell table lengths differ for Storage and RatingCurvePartition; " +
+		Rule: "all 41 catalogued models x parameter-vector groups x cells N in 1..4 x parameter sets P and input blocks B in {1, N, the value coprime with N below N} (plus N in {5,8,9,13} with P in {1,N}, B in {1,4,N}; plus (N, GOMAXPROCS) in {(3,2),(4,3),(5,2),(5,3),(9,4),(9,8),(13,2)}) x T in {1,3,(6)} x outputs exact or one larger in every dimension x Go- or C-backed arrays (with canaries) x states from InitialiseStates(N) or caller-filled (warmed-up, distinct rows); per-cell table lengths differ for Storage and RatingCurvePartition; " +
 			"each cell of the vectorised run is compared bit-for-bit with a fresh single-cell run of its parameter column (i mod P), input block (i mod B) and state row; inputs/parameters unchanged; slack and canaries untouched. distinct_nontrivial = configurations with a non-zero output.",
 		Assumptions: []string{"a write that stores the value already present in inputs/parameters is not observable here (no access log)", "GR4J/Lag parameter sets mixing unit-hydrograph / lag lengths are enumerated separately (rectangular state array)"},
 		Build:       func(tier string) vf.Enumeration { return build(tier) },
